@@ -72,9 +72,8 @@ theorem opaqueVal_notPanic (name : String) (n : T) (src : Bytes) (h : shapeOk n 
       · by_cases h4 : name = "node.ChildByFieldName(\"name\").Content(sourceCode)"
         · have hty := hcls h4
           have hb : ¬ n.ty = "binary_expression" := by rw [hty]; decide
-          have hm : ¬ n.ty = "method_declaration" := by rw [hty]; decide
           have hy : ¬ (n.ty = "yield_statement" ∨ n.ty = "assert_statement") := by rw [hty]; decide
-          simp only [shapeOk, hb, hm, hy, hty, ↓reduceIte] at h
+          simp only [shapeOk, hb, hy, hty, ↓reduceIte] at h
           obtain ⟨c, hc⟩ := Option.isSome_iff_exists.1 h
           simp only [h1, h2, h3, h4, ↓reduceIte, hc]; rfl
         · simp only [h1, h2, h3, h4, ↓reduceIte]; rfl
